@@ -13,6 +13,8 @@ type Hooks interface {
 	Point(owner any, name string)
 	// Fault is a named fallible step: a non-nil result is returned by the caller as an error.
 	Fault(owner any, name string) error
+	// FaultOn is a Fault that also shows the simulator what the step is about to work on.
+	FaultOn(owner any, name string, subject any) error
 	// Go is the first statement of a goroutine the simulator has to schedule.
 	Go(owner any, name string)
 	// Access reports a read or write of state shared without a lock.
@@ -44,6 +46,13 @@ func Point(owner any, name string) {
 func Fault(owner any, name string) error {
 	if Impl != nil {
 		return Impl.Fault(owner, name)
+	}
+	return nil
+}
+
+func FaultOn(owner any, name string, subject any) error {
+	if Impl != nil {
+		return Impl.FaultOn(owner, name, subject)
 	}
 	return nil
 }
